@@ -18,7 +18,7 @@ RULE = ("lengths {1,2,3,9,10,11,25,60} x topic mix {own, alternating, foreign-he
 ASSUMPTIONS = ["Redis and RabbitMQ are wire-level fakes (RabbitMQ: FIFO per priority, requeue to original position)",
                "single priority per run (priority order is randomised by design on redis)", "messages deliverable at enqueue time (no delay)"]
 EVAL_COUNTER = "deliveries_judged"
-REQUIRED = ["deliveries_judged", "mode_all", "mode_steady", "mode_reject", "returns_judged", "long_backlogs"]
+REQUIRED = ["deliveries_judged", "mode_all", "mode_steady", "mode_reject", "returns_judged", "long_backlogs", "stale_delay_messages"]
 CASE_TIMEOUT = 120
 
 LENGTHS = [1, 2, 3, 9, 10, 11, 25, 60]
@@ -71,11 +71,21 @@ async def scenario(loop, case, out, stats, fps, samples):
                 return "foreign" if i < min(12, max(1, n // 2)) else "own"
             return rnd.choice(["own", "own", "foreign"])
 
+        from datetime import datetime as _dt, timedelta as _td
+
+        from repid.data._parameters import DelayProperties, RetriesProperties
+
+        stale = set()  # deliverable messages that still carry delay bookkeeping (like a retried or rescheduled message)
+
         async def enq():
             nonlocal seq
             id_ = f"m{seq:04d}"
             t = topic_for(seq)
-            await mb.enqueue(key_of(conn, id_, t, "q", case["prio"]), f"p{seq}", P())
+            params = P()
+            if mode == "reject" and t == "own" and rnd.random() < 0.35:
+                params = P(retries=RetriesProperties(max_amount=3, already_tried=1), delay=DelayProperties(next_execution_time=_dt.now() - _td(seconds=rnd.choice([0.5, 5, 60]))))
+                stale.add(id_)
+            await mb.enqueue(key_of(conn, id_, t, "q", case["prio"]), f"p{seq}", params)
             order[id_] = seq
             if t == "own":
                 own.add(id_)
@@ -117,7 +127,7 @@ async def scenario(loop, case, out, stats, fps, samples):
                 key = await take()
                 if key is None:
                     break
-                if key.id_ not in rejected and rnd.random() < 0.3:
+                if key.id_ not in rejected and rnd.random() < (0.7 if key.id_ in stale else 0.3):
                     rejected.add(key.id_)
                     await mb.reject(key)
                     returned_at[key.id_] = seq
@@ -146,7 +156,8 @@ async def scenario(loop, case, out, stats, fps, samples):
             if id_ not in own:
                 out.append(V("foreign_delivered", kind, ctx, f"{id_} has a foreign topic but was delivered"))
         # never-returned messages: delivery order == enqueue order
-        seqn = [id_ for id_ in delivered if id_ not in returned_at]
+        seqn = [id_ for id_ in delivered if id_ not in returned_at and id_ not in stale]
+        stats["stale_delay_messages"] += len(stale)
         last = -1
         for id_ in seqn:
             stats["deliveries_judged"] += 1
@@ -174,7 +185,8 @@ async def scenario(loop, case, out, stats, fps, samples):
                 out.append(V("returned_after_later", kind, ctx, f"{id_} was rejected and never delivered again; sequence {delivered[-10:]}"))
                 continue
             second = poss[1]
-            before = [x for x in delivered[poss[0] + 1:second] if order[x] >= at]
+            # compared with plain messages only: a broker may legitimately serve its due-delayed store before the normal one
+            before = [x for x in delivered[poss[0] + 1:second] if order[x] >= at and x not in stale]
             if before:
                 out.append(V("returned_after_later", kind, ctx, f"{id_} returned when {at} messages had been enqueued, but {before[:3]} (enqueued later) were delivered before its redelivery"))
         if len(samples) < 1:
